@@ -105,7 +105,7 @@ def parseT2 (line : String) : Option T2Case :=
   | _ => none
 
 def T2Case.run (c : T2Case) : String :=
-  let C : Ctx := { W := { addr := fun x => c.addr.getD x 0, fuel := 64 }, colls := c.colls }
+  let C : Ctx := { W := { addr := fun x => c.addr.getD x 0, fuel := 1000000 }, colls := c.colls }
   let nt := c.progs.length
   match (parInit C c.progs).runSched c.sched with
   | .error e => c.id ++ ";model-error;" ++ e
